@@ -173,6 +173,15 @@ func runMconn(c *core.Ctx) {
 	}
 	server.Stop()
 	srvConn.Close()
+	// no goroutine of the harness holds the state mutex now (the connection is stopped): a held mutex was leaked
+	// by a message handler and halts the node
+	if !victim.CS.VerifStateLockFree() {
+		time.Sleep(200 * time.Millisecond)
+		if !victim.CS.VerifStateLockFree() {
+			c.Violation("state-lock-leaked/burst", fmt.Sprintf("after burst %s over a real MConnection the consensus state mutex stays held: the node is halted", shape), nil)
+			return
+		}
+	}
 	// what the reactor enqueued must not crash the state machine either
 	n, p, stack := victim.CS.VerifDrainPeerQueue()
 	c.Count("processed_by_state_machine", int64(n))
